@@ -56,6 +56,20 @@ var tcSkels = []tcSkel{
 			}
 			return o, false
 		}},
+	// a function that contains both a returned and a discarded self call
+	{"discard-then-returned", `f := func(n, first) { if n == 0 { return 7 }; if !first { return f(n-1, false) }; f(n-1, false) }; out := f(n, true)`, false,
+		func(n, a int64) (int64, bool) { return 7, n != 0 }},
+	{"returned-then-discard", `f := func(n, m) { if n == 0 { return 7 }; if n > m { return f(n-1, m) }; f(n-1, m) }; out := f(n, a)`, false,
+		func(n, a int64) (int64, bool) { return 7, n != 0 && a >= 1 }},
+	{"discard-then-andand", `f := func(n, first) { if n == 0 { return 7 }; if !first { return n > 0 && f(n-1, false) }; f(n-1, false) }; out := f(n, true)`, false,
+		func(n, a int64) (int64, bool) { return 7, n != 0 }},
+	{"alternating", `f := func(n) { if n == 0 { return 7 }; if n % 2 == 0 { return f(n-1) }; f(n-1) }; out := f(n)`, false,
+		func(n, a int64) (int64, bool) { return 7, n != 0 }},
+	// after a discarded self call, other calls at the same depth return their values
+	{"discard-then-other-call", `cnt := func(k) { if k == 0 { return }; cnt(k-1) }; cnt(n); dbl := func(x) { return x * 2 }; ap := func(g, x) { return g(x) }; out := dbl(a) + ap(dbl, 1)`, false,
+		func(n, a int64) (int64, bool) { return a*2 + 2, false }},
+	{"discard-then-same-function", `f := func(n) { if n == 0 { return 7 }; f(n-1) }; f(n); out := f(0)`, false,
+		func(n, a int64) (int64, bool) { return 7, false }},
 	// not in tail position: must never be treated as a tail call
 	{"plus", `f := func(n, acc) { if n == 0 { return acc }; return 1 + f(n-1, acc) }; out := f(n, a)`, false,
 		func(n, a int64) (int64, bool) { return a + n, false }},
@@ -158,6 +172,46 @@ func C16_Step() {
 	// asserted (the result above): whether the VM reuses the frame while
 	// discarding the callee's value is not observable and not demanded.
 	vf.Reach("step")
+}
+
+const lastFrameSrc = `
+d := k
+res := 0
+loop := func(n, acc) { if n == 0 { return acc }; return loop(n-1, acc+1) }
+nest := func() { d--; if d == 0 { return loop(n, 0) }; res = nest(); return res }
+out := nest()
+`
+
+// C16_LastFrame: self tail calls need no further frame, so wherever the
+// tail-recursive function can be entered at all (it completes with depth 0 at
+// that call nesting) it completes with every depth: nesting k around the
+// frame capacity, depth n symbolic.
+func C16_LastFrame() {
+	k := int64(tengo.MaxFrames - 6 + vf.Choice("k", 9))
+	n := vf.Int64("n")
+	vf.Assume(n >= 1)
+	vf.Assume(n <= 3)
+	run := func(depth int64) (*tengo.Compiled, error) {
+		s := tengo.NewScript([]byte(lastFrameSrc))
+		_ = s.Add("k", k)
+		_ = s.Add("n", depth)
+		c, err := s.Compile()
+		vf.Assert(err == nil, "last-frame program compiles")
+		rerr, panicked, _ := RunGuarded(c)
+		if panicked {
+			vf.Stop() // operand stack exhausted first (recoverable index panic): other property
+		}
+		return c, rerr
+	}
+	_, e0 := run(0)
+	if e0 != nil {
+		vf.Reach("lastframe-unreachable")
+		return
+	}
+	c, en := run(n)
+	vf.Assert(en == nil, "a self tail call in the deepest usable frame needs no further frame")
+	vf.Assert(c.Get("out").Int64() == n, "result at the deepest usable frame equals the equivalent loop")
+	vf.Reach("lastframe")
 }
 
 // C16_Deep: base case beyond the frame capacity (MaxFrames=1024): concrete
